@@ -9,16 +9,20 @@ for n in sorted(res):
     r = res[n]
     if r.get("status"):
         rows.append(f"| {n} | {r.get('kind','')} | | | {r['status']} | |"); continue
-    kind = "seeded" if r["kind"] == "seeded" else "hand"
+    kind = "seeded" if r["kind"] == "seeded" else ("harmless" if r.get("harmless") else "hand")
     note = ""
     d = os.path.join(V, r["kind"], n, "meta.json")
     first = (r.get("first") or "").replace("FAILED obligation ", "").replace("FAILED bounded stand-in ", "bounded: ").replace("|", "\\|")
     first = re.sub(r"/root/selftest-wt/", "", first)[:110]
     ok = bool(r.get("detected_by"))
+    if r.get("harmless"):
+        rows.append(f"| {n} | harmless edit | {r['property']} | {', '.join(r['checked'])} | {'**false alarm**' if ok else 'quiet (as it must be)'} | {first} |")
+        continue
     det += ok
     rows.append(f"| {n} | {kind} | {r['property']} | {', '.join(r['checked'])} | {'detected by ' + ', '.join(r['detected_by']) if ok else '**missed**'} | {first} |")
 rows.append("")
-rows.append(f"{len(res)} changes, {det} detected.")
+nh = sum(1 for r in res.values() if r.get("harmless"))
+rows.append(f"{len(res) - nh} property-breaking changes, {det} detected; {nh} behaviour-preserving edits, all quiet unless marked.")
 p = os.path.join(V, "DESIGN.md")
 s = open(p).read()
 b, e = "<!-- selftest-table-begin -->", "<!-- selftest-table-end -->"
